@@ -203,8 +203,26 @@ func (fx *FnCtx) execInstr(st *State, pc *Term, ins ssa.Instruction) {
 	case *ssa.Phi:
 		fx.fail("phi in the middle of a block")
 	case *ssa.Call:
+		var preSt *State
+		site, isSite := fx.appendSites[t]
+		if isSite && fx.topLevel {
+			preSt = st.Clone()
+		}
 		v := fx.execCall(st, pc, t, &t.Call)
 		fx.vals[t] = v
+		if isSite && fx.topLevel && fx.fc != nil && len(fx.fc.GhostAt) > 0 {
+			env := fx.entryEnv(st)
+			env.oldEnv = fx.entryEnv(fx.entry)
+			dst := fx.val(t.Call.Args[0])
+			src := fx.val(t.Call.Args[1])
+			env.vars["dst"] = SV{V: dst}
+			env.vars["res"] = SV{V: v}
+			if _, ok := t.Call.Args[1].Type().Underlying().(*types.Slice); ok {
+				el := elemTypeOf(t.Call.Args[1].Type())
+				env.vars["elem0"] = SV{V: fx.readElem(preSt, el, src.L[0], src.L[1])}
+			}
+			fx.runGhost(fmt.Sprintf("append#%d", site), st, env)
+		}
 	case *ssa.Extract:
 		tup := fx.val(t.Tuple)
 		tt := t.Tuple.Type().(*types.Tuple)
@@ -361,6 +379,12 @@ func (fx *FnCtx) loadFacts(st *State, pc *Term, v Value) {
 			fx.assume(Implies(pc, fx.tc.IdxLt(v.L[i], st.NAlloc)))
 		}
 	}
+	for _, l := range v.L {
+		if l.hasBnd {
+			return
+		}
+	}
+	fx.sliceShape(v, v.T, 0, pc)
 }
 
 func (fx *FnCtx) toIdx(v Value, t types.Type) *Term {
